@@ -413,6 +413,11 @@ def _fit_peak_single_model(
     fit_requirements: FitRequirements,
 ) -> FitResult:
     model = background + peak
+    if len(data) < len(model.param_names):
+        # Check before guessing parameters because the guesses fail on (near) empty data.
+        return FitResult.for_too_narrow_window(
+            peak=peak, background=background, window=window
+        )
     bkg_p0 = _guess_background(data, model=background, fit_parameters=fit_parameters)
     p0 = {
         **bkg_p0,
@@ -603,10 +608,14 @@ def _peak_is_too_narrow(
 ) -> bool:
     fwhm = peak.fwhm(popt)
     coord = data.coords[data.dim]
-    center_idx = np.argmin(abs(coord.values - popt['peak_loc'].values))
+    center_idx = int(np.argmin(abs(coord.values - popt['peak_loc'].values)))
     # Average of bins around center index.
     # Bins don't normally vary quickly, so this is a good approximation.
-    bin_width = (coord[center_idx + 1] - coord[center_idx - 1]) / 2
+    # The neighbors are clamped to the coordinate range; for an edge point they would
+    # otherwise wrap around (index -1) or be out of range.
+    lower = max(center_idx - 1, 0)
+    upper = min(center_idx + 1, len(coord) - 1)
+    bin_width = (coord[upper] - coord[lower]) / max(upper - lower, 1)
     return (fwhm < fit_requirements.min_peak_width_factor * bin_width).value
 
 
@@ -624,7 +633,7 @@ def _guess_peak(
 ) -> dict[str, sc.Variable]:
     # 2* to match the range in _guess_background
     n = int(len(data) * fit_parameters.guess_background_fraction / 2)
-    bulk = data[n:-n]
+    bulk = data[n : len(data) - n]  # not data[n:-n] which is empty for n == 0
     return model.guess(bulk)
 
 
